@@ -39,6 +39,9 @@ theorem armBody_ok : TableOk armBody :=
   ⟨fun e k => (armBody_entry e k).1, fun e k b hb => ((armBody_entry e k).2 b hb).1,
     fun e k b hb => ((armBody_entry e k).2 b hb).2.1, fun e k b hb => ((armBody_entry e k).2 b hb).2.2.1⟩
 
+theorem connId_inj : Function.Injective connId := by
+  intro a b h; cases a <;> cases b <;> first | rfl | cases h
+
 /-! ### arms -/
 section arms
 variable {ι : Type} {tbl : Table} (ht : TableOk tbl)
